@@ -815,16 +815,27 @@ Proof.
   destruct (pl_rl s1); auto. eapply sched_trans; [exact H2|apply sched_settle].
 Qed.
 
+Lemma sched_fail_close cl t s : sched s (pl_fail_close cl t s).
+Proof.
+  unfold pl_fail_close. destruct (cl && pl_write_failed s t); [|apply sched_refl].
+  eapply sched_trans; [apply sched_exec|apply sched_settle_all].
+Qed.
+
 Lemma sched_big_step s e : sched s (pl_big_step s e).
 Proof.
   destruct e; cbn [pl_big_step].
   - eapply sched_trans; [|apply sched_settle]. apply sched_fold. apply sched_exec.
   - destruct (pl_tget s k) as [th|]; [|apply sched_refl].
-    destruct (pl_twid th); [apply sched_do_emit|apply sched_refl].
+    destruct (pl_seen_wid th); [apply sched_do_emit|apply sched_refl].
   - apply sched_do_emit.
   - eapply sched_trans; [apply sched_exec|apply sched_settle_all].
   - eapply sched_trans; [apply sched_exec|apply sched_settle].
   - eapply sched_trans; [apply sched_exec|apply sched_settle_all].
+  - eapply sched_trans; [|apply sched_fail_close].
+    eapply sched_trans; [|apply sched_settle]. apply sched_fold. apply sched_exec.
+  - destruct (pl_closed s); (eapply sched_trans; [|apply sched_settle]); apply sched_fold; apply sched_exec.
+  - eapply sched_trans; [|apply sched_fail_close].
+    eapply sched_trans; [|apply sched_settle]. apply sched_fold. apply sched_exec.
 Qed.
 
 (* every quiescent history's big-step result is reached by a schedule of the small-step system *)
@@ -887,4 +898,50 @@ Proof.
   pose proof (reachable_run _ _ _ _ _ R Run) as R'.
   destruct (add_exhausted _ _ _ _ _ Hq R' N' G P) as (_ & s'' & th' & S & G' & P' & W' & N'' & A'' & _).
   exists s'', th'. repeat split; auto. congruence.
+Qed.
+
+(* ====================================================================================== *)
+(* write failures: the id stays consumed, ids are monotone whatever writes do              *)
+(* ====================================================================================== *)
+(* a write — successful or failed — touches neither the id counter, nor the assignment log, nor the waiter table *)
+Lemma write_keeps_id s t ok s' :
+  pl_step s (PlLWrite t ok) = Some s' ->
+  pl_nextQid s' = pl_nextQid s /\ pl_alog s' = pl_alog s /\ pl_queue s' = pl_queue s /\ pl_closed s' = pl_closed s.
+Proof.
+  cbn [pl_step]. destruct (pl_tget s t) as [th|]; [|discriminate].
+  destruct (pl_tpc th); try discriminate. destruct ok.
+  - destruct (pl_closed s) eqn:C; [discriminate|]. intros H; inversion H; subst. repeat split; cbn; auto.
+  - intros H; inversion H; subst. repeat split; cbn; auto.
+Qed.
+
+Lemma run_ids ls : forall s s', pl_run ls s = Some s' ->
+  pl_nextQid s <= pl_nextQid s' /\ exists new, pl_alog s' = new ++ pl_alog s.
+Proof.
+  induction ls as [|l ls IH]; cbn; intros s s' H.
+  - inversion H; subst. split; [lia|]. exists []. reflexivity.
+  - destruct (pl_step s l) as [s1|] eqn:E; [|discriminate].
+    destruct (IH _ _ H) as (M & new & A).
+    destruct (step_ids _ _ _ E) as [(N1 & A1)|(_ & N1 & t & A1)].
+    + split; [lia|]. exists new. congruence.
+    + split; [lia|]. exists (new ++ [(t, pl_nextQid s)]). rewrite A, A1, <- app_assoc. reflexivity.
+Qed.
+
+(* an id that was ever assigned — whatever became of its exchange: write failed, cancelled, answered, connection
+   closed — is never held by another exchange in any later state, and the counter never goes back *)
+Theorem ids_never_reused tcp q0 s :
+  q0 <= 65536 -> reachable tcp q0 s ->
+  forall ls s', pl_run ls s = Some s' ->
+    pl_nextQid s <= pl_nextQid s' /\
+    (exists new, pl_alog s' = new ++ pl_alog s) /\
+    NoDup (assigned_ids s') /\
+    (forall t th w, pl_tget s t = Some th -> pl_twid th = Some w ->
+       forall t' th', pl_tget s' t' = Some th' -> pl_twid th' = Some w -> t' = t).
+Proof.
+  intros Hq R ls s' H. pose proof (reachable_inv _ _ _ Hq R) as I.
+  pose proof (reachable_run _ _ _ _ _ R H) as R'. pose proof (reachable_inv _ _ _ Hq R') as I'.
+  destruct (run_ids _ _ _ H) as (M & A). repeat split; auto.
+  - destruct (ids_fresh _ _ _ Hq R') as (_ & _ & _ & _ & Nd). exact Nd.
+  - intros t th w G W t' th' G' W'.
+    destruct (run_ext _ _ _ _ I H) as (_ & _ & E). destruct (E _ _ G) as (x & Gx & _ & Wx & _).
+    eapply wid_inj; [exact I'| exact G' | exact Gx | exact W' | apply Wx; exact W].
 Qed.
